@@ -106,7 +106,10 @@ def run_history(start, dt, kinds, compress, route, scenarios):
         app0, client0 = srv.make_server(factory)
         iid = srv.start_instance(client, timeout={"minutes": 10})
         iid0 = srv.start_instance(client0, timeout={"minutes": 10})
-        bsb = {"scenario_managers": [SM], "scenarios": list(scenarios), "equations": EQS}
+        ghost = "+ghost" in scenarios
+        scenarios = [x for x in scenarios if x != "+ghost"]
+        # (+ghost: the session also names a scenario manager nobody registered - begin-session accepts it, every step logs {manager: {}} for it)
+        bsb = {"scenario_managers": [SM] + (["ghostSm"] if ghost else []), "scenarios": list(scenarios), "equations": EQS}
         for c, i in ((client, iid), (client0, iid0)):
             c.post("/%s/begin-session" % i, json=bsb)
         for j, kind in enumerate(kinds):
@@ -237,6 +240,12 @@ def jobs(tier):
                 for compress in (False, True):
                     for route in ("auto", "explicit", "restart"):
                         out.append((st, dt, list(kinds), compress, route, ["base"]))
+    # a session that names a scenario manager which contributes nothing to the steps
+    for (st, dt) in ((0, 1), (0.5, 0.5)):
+        for kinds in (["nobody"], ["v1", "nobody"], ["empty", "v2p", "rs2e"]):
+            for compress in (False, True):
+                for route in ("auto", "explicit", "restart"):
+                    out.append((st, dt, list(kinds), compress, route, ["base", "+ghost"]))
     # a second game on the same instance that reaches the clock position of the first one (in one request or step by step)
     for (st, dt) in ((0, 1), (0.5, 0.5)):
         for kinds in (["nobody", "rebegin", "nobody"], ["v1", "v1", "rebegin", "rs2e"], ["v1", "rebegin", "v2p"], ["rs2v1", "rebegin", "nobody", "nobody"],
